@@ -487,4 +487,36 @@ func ruleLedgerTraceable(c *Ctx) {
 		}
 	}
 	c.Floor("Ledger methods returning looked-up data", n, 4)
+	// the other natives: whoever reads a transaction or block record directly (not through the Ledger's guarded
+	// methods) depends on a record that a pruning node deletes once it is untraceable and an archival node keeps
+	recordReaders := map[string]bool{"pkg/core/dao.(*Simple).GetTransaction": true, "pkg/core/dao.(*Simple).GetTxExecResult": true, "pkg/core/dao.(*Simple).GetBlock": true}
+	m := 0
+	for _, fd := range c.P.AllFuncDecls() {
+		if fd.Pkg != pk || fd.Decl.Body == nil {
+			continue
+		}
+		if fd.Decl.Recv != nil && namedTypeIs(pk.TypesInfo.TypeOf(fd.Decl.Recv.List[0].Type), natPkg, "Ledger") {
+			continue
+		}
+		if fd.Obj.Name() == "getTransactionAndHeight" {
+			continue // the Ledger's own helper, its callers are checked above
+		}
+		f := c.P.NewFuncCFG(fd)
+		var sites []site
+		for k := range recordReaders {
+			sites = append(sites, f.CallSites(k)...)
+		}
+		if len(sites) == 0 {
+			continue
+		}
+		m++
+		key := FuncKey(fd.Obj) + ".record-read-traceable"
+		gated := len(f.CallSites("pkg/core/native.(*Ledger).isTraceableBlock")) > 0
+		if gated {
+			c.OK(key, c.P.Pos(sites[0].call.Pos()), "reads a transaction/block record and tests its traceability")
+		} else {
+			c.Fail(key, c.P.Pos(sites[0].call.Pos()), FuncKey(fd.Obj)+" reads a transaction or block record from the DAO without a traceability test: RemoveUntraceableBlocks - a node-local setting - deletes the record once its block is older than MaxTraceableBlocks, so the same execution finds it on an archival node and misses it on a pruning one")
+		}
+	}
+	c.Note("natives other than Ledger reading ledger records directly: %d", m)
 }
